@@ -2,6 +2,9 @@ package checks
 
 import (
 	"fmt"
+	"google.golang.org/protobuf/reflect/protodesc"
+	"google.golang.org/protobuf/types/descriptorpb"
+	"google.golang.org/protobuf/types/dynamicpb"
 	"strings"
 
 	"google.golang.org/protobuf/encoding/protojson"
@@ -20,13 +23,86 @@ func init() {
 		Assume:  []string{"msgmodel oneof semantics (set clears siblings; decode: last member on the wire wins)"},
 		Batches: func(tier string) []core.Batch { return stdBatches([]string{"base"}, 8) },
 		Gates: func(tier string) map[string]int64 {
-			return map[string]int64{"histories": 2000, "step:decode": 500, "step:merge": 500, "step:generated-set": 100, "json_two_members": 300, "text_two_members": 300, "member_kind:message": 100, "member_kind:bytes": 20, "member_kind:enum": 20}
+			return map[string]int64{"histories": 2000, "step:decode": 500, "step:merge": 500, "step:generated-set": 100, "json_two_members": 300, "text_two_members": 300, "member_kind:message": 100, "member_kind:bytes": 20, "member_kind:enum": 20, "oneof_position_shapes": 48, "oneof_position_histories": 1200}
 		},
 		Run: runC12,
 	})
 }
 
+// c12Shapes builds dynamic message types whose oneofs sit at every position:
+// L leading plain fields, a oneof of M members, T plain fields, a second oneof.
+func c12Shapes() ([]protoreflect.MessageType, error) {
+	opt := descriptorpb.FieldDescriptorProto_LABEL_OPTIONAL.Enum()
+	fdp := &descriptorpb.FileDescriptorProto{Name: proto.String("verifc12/shapes.proto"), Package: proto.String("verifc12"), Syntax: proto.String("proto2"),
+		EnumType: []*descriptorpb.EnumDescriptorProto{{Name: proto.String("Kind"), Value: []*descriptorpb.EnumValueDescriptorProto{{Name: proto.String("K0"), Number: proto.Int32(0)}, {Name: proto.String("K1"), Number: proto.Int32(1)}}}}}
+	kinds := []descriptorpb.FieldDescriptorProto_Type{descriptorpb.FieldDescriptorProto_TYPE_STRING, descriptorpb.FieldDescriptorProto_TYPE_BYTES, descriptorpb.FieldDescriptorProto_TYPE_MESSAGE, descriptorpb.FieldDescriptorProto_TYPE_ENUM, descriptorpb.FieldDescriptorProto_TYPE_SINT64, descriptorpb.FieldDescriptorProto_TYPE_BOOL}
+	for l := 0; l <= 3; l++ {
+		for m := 2; m <= 5; m++ {
+			for t := 0; t <= 2; t++ {
+				name := fmt.Sprintf("S%d_%d_%d", l, m, t)
+				md := &descriptorpb.DescriptorProto{Name: proto.String(name), OneofDecl: []*descriptorpb.OneofDescriptorProto{{Name: proto.String("payload")}, {Name: proto.String("tail")}}}
+				num := int32(1)
+				add := func(prefix string, typ descriptorpb.FieldDescriptorProto_Type, oneof int) {
+					f := &descriptorpb.FieldDescriptorProto{Name: proto.String(fmt.Sprintf("%s%d", prefix, num)), Number: proto.Int32(num), Label: opt, Type: typ.Enum(), JsonName: proto.String(fmt.Sprintf("%s%d", prefix, num))}
+					switch typ {
+					case descriptorpb.FieldDescriptorProto_TYPE_MESSAGE:
+						f.TypeName = proto.String(".verifc12." + name)
+					case descriptorpb.FieldDescriptorProto_TYPE_ENUM:
+						f.TypeName = proto.String(".verifc12.Kind")
+					}
+					if oneof >= 0 {
+						f.OneofIndex = proto.Int32(int32(oneof))
+					}
+					md.Field = append(md.Field, f)
+					num++
+				}
+				for i := 0; i < l; i++ {
+					add("lead", descriptorpb.FieldDescriptorProto_TYPE_INT32, -1)
+				}
+				for i := 0; i < m; i++ {
+					add("mem", kinds[(i+l)%len(kinds)], 0)
+				}
+				for i := 0; i < t; i++ {
+					add("mid", descriptorpb.FieldDescriptorProto_TYPE_STRING, -1)
+				}
+				add("tl", descriptorpb.FieldDescriptorProto_TYPE_INT32, 1)
+				add("tl", descriptorpb.FieldDescriptorProto_TYPE_MESSAGE, 1)
+				fdp.MessageType = append(fdp.MessageType, md)
+			}
+		}
+	}
+	fd, err := protodesc.NewFile(fdp, nil)
+	if err != nil {
+		return nil, err
+	}
+	var out []protoreflect.MessageType
+	for i := 0; i < fd.Messages().Len(); i++ {
+		out = append(out, dynamicpb.NewMessageType(fd.Messages().Get(i)))
+	}
+	return out, nil
+}
+
 func runC12(c *core.Ctx, b core.Batch) {
+	if b.Cfg == "base" && b.N == 0 {
+		shapes, err := c12Shapes()
+		if err != nil {
+			c.Violation("harness:oneof-shape-schema-invalid", map[string]any{"err": errStr(err)})
+		}
+		for si, mt := range shapes {
+			c.Count("oneof_position_shapes")
+			ods := mt.Descriptor().Oneofs()
+			for oi := 0; oi < ods.Len(); oi++ {
+				for k := 0; k < c.Scale(40, 600); k++ {
+					r := c.Rng(uint64(0x12a)<<40 | uint64(si)<<24 | uint64(oi)<<16 | uint64(k))
+					c12History(c, r, mt, ods.Get(oi), false)
+					c.Count("oneof_position_histories")
+					if k%3 == 0 {
+						c12TwoMembers(c, r, mt, ods.Get(oi), false)
+					}
+				}
+			}
+		}
+	}
 	var types []protoreflect.MessageType
 	for _, mt := range codecTypes(b) {
 		ods := mt.Descriptor().Oneofs()
